@@ -14,3 +14,5 @@ import Tcell.Props.C19Page
 import Tcell.Spec.Ecma48
 import Tcell.Spec.Ecma48Lemmas
 import Tcell.Spec.Ecma48Test
+import Tcell.Props.C12
+import Tcell.Props.C03
